@@ -229,7 +229,9 @@ fn classify(cfg: &Cfg, rule_urls: &[&Url], request_urls: &[&Url], message: Strin
     Failure { class: "normalisation", message }
 }
 
-pub fn check(case: &Case) -> Result<Stats, Failure> {
+/// every relation is evaluated even after one failed: a known finding on one relation must not hide the others
+pub fn check(case: &Case) -> (Stats, Vec<Failure>) {
+    let mut fails: Vec<Failure> = Vec::new();
     let cfg = &case.cfg;
     let built = cfg.build();
     let u = &case.url;
@@ -259,7 +261,7 @@ pub fn check(case: &Case) -> Result<Stats, Failure> {
     let base_single = ids_of(&single.match_request(&base_request));
     stats.relations += 1;
     if !base_single.contains(&"r1".to_string()) {
-        return Err(classify(
+        fails.push(classify(
             cfg,
             &[u],
             &[u],
@@ -267,6 +269,39 @@ pub fn check(case: &Case) -> Result<Stats, Failure> {
         ));
     }
     let base_multi = ids_of(&multi.match_request(&base_request));
+
+    // M1': the same literal rule, but declaring a marker that its source never uses (a marker used only by
+    // the target, or left over after an edit): the source is still a literal URL, so every request below must
+    // be answered exactly as by `single`
+    let mut single_unused = Router::<Rule>::from_config(cfg.build());
+    {
+        let mut r = rule_from("r1", u, target);
+        r.markers = vec![MarkerSpec {
+            name: "zzunused".to_string(),
+            regex: "[0-9]+".to_string(),
+            transformers: vec![],
+        }];
+        single_unused.insert(r.to_rule());
+    }
+    let same_with_unused_marker = |q: &Request, what: &str| -> Result<(), Failure> {
+        let a = ids_of(&single.match_request(q));
+        let b = ids_of(&single_unused.match_request(q));
+        if a != b {
+            return Err(Failure {
+                class: "unused-marker",
+                message: format!(
+                    "{what}: the literal rule for {:?} answers {a:?}, the same rule declaring an unused marker answers {b:?} (request matching form {:?})",
+                    u.text(),
+                    q.path_and_query()
+                ),
+            });
+        }
+        Ok(())
+    };
+    stats.relations += 1;
+    if let Err(f) = same_with_unused_marker(&base_request, "M1'") {
+        fails.push(f);
+    }
 
     // M6 on the base request
     let once = Request::rebuild_with_config(&built, &base_request);
@@ -278,7 +313,7 @@ pub fn check(case: &Case) -> Result<Stats, Failure> {
     );
     stats.relations += 1;
     if j1 != j2 || j0 != j1 {
-        return Err(Failure {
+        fails.push(Failure {
             class: "not-idempotent",
             message: format!("M6: re-normalising changes the request: {j0} -> {j1} -> {j2}"),
         });
@@ -291,7 +326,7 @@ pub fn check(case: &Case) -> Result<Stats, Failure> {
             stats.location_checked += 1;
             let loc = location_of(&single, &base_request, "r1");
             if loc.as_deref() != Some(target) {
-                return Err(Failure {
+                fails.push(Failure {
                     class: "location",
                     message: format!("Location for a request without marketing parameters is {loc:?}, expected {target:?}"),
                 });
@@ -302,13 +337,30 @@ pub fn check(case: &Case) -> Result<Stats, Failure> {
     for (rel, v) in &case.variants {
         let vr = request_for(&built, v);
         stats.relations += 1;
+        if let Err(f) = same_with_unused_marker(&vr, rel) {
+            fails.push(f);
+        }
+        // M6 on every variant (marketing parameters, permuted and case-swapped forms included)
+        let vr1 = Request::rebuild_with_config(&built, &vr);
+        let vr2 = Request::rebuild_with_config(&built, &vr1);
+        let (k0, k1, k2) = (
+            serde_json::to_string(&vr).unwrap_or_default(),
+            serde_json::to_string(&vr1).unwrap_or_default(),
+            serde_json::to_string(&vr2).unwrap_or_default(),
+        );
+        if k0 != k1 || k1 != k2 {
+            fails.push(Failure {
+                class: "not-idempotent",
+                message: format!("M6 ({rel} variant): re-normalising changes the request: {k0} -> {k1} -> {k2}"),
+            });
+        }
         match rel.as_str() {
             "M2" => {
                 // different path or different decoded parameters => the rule for u must not match v
                 stats.m2_checked += 1;
                 let got = ids_of(&single.match_request(&vr));
                 if got.contains(&"r1".to_string()) {
-                    return Err(classify(
+                    fails.push(classify(
                         cfg,
                         &[u],
                         &[v],
@@ -324,7 +376,7 @@ pub fn check(case: &Case) -> Result<Stats, Failure> {
                 if got != base_multi {
                     let mut rule_urls: Vec<&Url> = vec![u];
                     rule_urls.extend(other_rule_urls.iter());
-                    return Err(classify(
+                    fails.push(classify(
                         cfg,
                         &rule_urls,
                         &[u, v],
@@ -346,7 +398,7 @@ pub fn check(case: &Case) -> Result<Stats, Failure> {
                 if got != base_multi {
                     let mut rule_urls: Vec<&Url> = vec![u];
                     rule_urls.extend(other_rule_urls.iter());
-                    return Err(classify(
+                    fails.push(classify(
                         cfg,
                         &rule_urls,
                         &[u, v],
@@ -370,9 +422,20 @@ pub fn check(case: &Case) -> Result<Stats, Failure> {
                         target.to_string()
                     };
                     stats.location_checked += 1;
+                    // agent -> JSON -> proxy: the request is re-normalised more than once before the action is built
+                    let loc_again = location_of(&multi, &vr2, "r1");
+                    if loc_again.as_deref() != Some(want.as_str()) {
+                        fails.push(Failure {
+                            class: "location",
+                            message: format!(
+                                "M4+M6: Location for {:?} after re-normalising the request twice is {loc_again:?}, expected {want:?}",
+                                v.text()
+                            ),
+                        });
+                    }
                     let loc = location_of(&multi, &vr, "r1");
                     if loc.as_deref() != Some(want.as_str()) {
-                        return Err(Failure {
+                        fails.push(Failure {
                             class: "location",
                             message: format!(
                                 "M4: Location for {:?} is {loc:?}, expected {want:?} (pass_marketing_query_params_to_target = {})",
@@ -386,7 +449,7 @@ pub fn check(case: &Case) -> Result<Stats, Failure> {
             _ => {}
         }
     }
-    Ok(stats)
+    (stats, fails)
 }
 
 // ---------------------------------------------------------------------------------------------
@@ -547,10 +610,23 @@ fn record(ctx: &Ctx, case: &Case, report: &mut Report) {
     report.eval();
     match guarded(|| check(case)) {
         Err(panic) => report.library_panic(&panic),
-        Ok(Ok(stats)) => {
+        Ok((stats, fails)) => {
             report.count_n("relations_checked", stats.relations as u64);
             report.count_n("separation_checks", stats.m2_checked as u64);
             report.count_n("location_checks", stats.location_checked as u64);
+            let clean = fails.is_empty();
+            for f in fails {
+                let case_json = serde_json::to_value(case).unwrap();
+                if f.class == "C09-F11" || f.class == "C09-F17" || f.class == "C09-F18" {
+                    report.finding(ctx, f.class, f.message, case_json);
+                } else {
+                    report.violation(f.class, f.message, case_json);
+                }
+            }
+            if !clean {
+                report.count("cases_with_a_failed_relation");
+                return;
+            }
             let u = &case.url;
             let params = u.query.as_ref().map(|q| decoded_params(q).len()).unwrap_or(0);
             let touched = sanitize_path_literal(&u.text()) != u.text() || u.text().contains('%') || u.text().contains('+');
@@ -559,14 +635,6 @@ fn record(ctx: &Ctx, case: &Case, report: &mut Report) {
             }
             if report.want_sample() && params >= 2 && touched && case.variants.len() >= 5 {
                 report.sample(json!({"config": case.cfg, "url": u.text(), "variants": case.variants.iter().map(|(r, v)| json!([r, v.text()])).collect::<Vec<_>>()}));
-            }
-        }
-        Ok(Err(f)) => {
-            let case_json = serde_json::to_value(case).unwrap();
-            if f.class == "C09-F11" || f.class == "C09-F17" || f.class == "C09-F18" {
-                report.finding(ctx, f.class, f.message, case_json);
-            } else {
-                report.violation(f.class, f.message, case_json);
             }
         }
     }
@@ -595,7 +663,7 @@ pub fn run(ctx: &Ctx, _args: &Args) -> i32 {
     finish(
         ctx,
         report,
-        "full 2^6 configuration flag cube x marketing sets {default 5 keys, {mk}, empty} x generated URLs (paths over mixed-case ASCII, unreserved and reserved punctuation, space, quotes, '+', '|', brackets, angle brackets, %20 %2B %2F %C3%A9 %FF, raw non-ASCII, characters the http URI parser rejects; queries with repeated keys, empty values, keys without '=', '&&', trailing '&', '?' alone); relations M1 self-match, M2 separation, M3 permutation, M4 marketing parameters + Location forwarding, M5 ASCII case swap, M6 idempotence. non-trivial = distinct (config, URL) with >= 2 parameters or a character some encode set touches",
+        "full 2^6 configuration flag cube x marketing sets {default 5 keys, {mk}, empty} x generated URLs (paths over mixed-case ASCII, unreserved and reserved punctuation, space, quotes, '+', '|', brackets, angle brackets, %20 %2B %2F %C3%A9 %FF, raw non-ASCII, characters the http URI parser rejects; queries with repeated keys, empty values, keys without '=', '&&', trailing '&', '?' alone); relations M1 self-match, M2 separation, M3 permutation, M4 marketing parameters + Location forwarding, M5 ASCII case swap, M6 idempotence (base URL and every variant, incl. Location after two re-normalisations), M1' the same literal rule declaring an unused marker answers identically. non-trivial = distinct (config, URL) with >= 2 parameters or a character some encode set touches",
         &["the http crate's URI parser, used only to decide whether request-side normalisation was skipped (known-finding signature)", "harness-side form decoding / canonical query used only for generation and known-finding signatures"],
         started,
         1000,
@@ -613,8 +681,7 @@ pub fn replay(_ctx: &Ctx, case: &Value) -> i32 {
     };
     let failures = match guarded(|| check(&case)) {
         Err(p) => vec![format!("panic: {p}")],
-        Ok(Err(f)) => vec![format!("[{}] {}", f.class, f.message)],
-        Ok(Ok(_)) => vec![],
+        Ok((_, fails)) => fails.iter().map(|f| format!("[{}] {}", f.class, f.message)).collect(),
     };
     super::replay_verdict("C09", failures)
 }
